@@ -337,6 +337,14 @@ def handleParams : List String → Option String
       pure (match Param.parseInt ⟨signed == "1", b⟩ r with | some v => "ok " ++ toString v | none => "err")
   | ["parsebool", raw] => (hexArg raw).map fun r =>
       match Param.parseBool r with | some v => "ok " ++ toString v | none => "err"
+  | ["parseenum", names, raw] => do
+      -- names: `namehex:number,…` in declaration order
+      let ns ← (if names == "-" || names.isEmpty then some [] else (names.splitOn ",").mapM fun it =>
+        match it.splitOn ":" with
+        | [n, v] => do pure ((← hexArg n), (← v.toInt?))
+        | _ => none)
+      let r ← hexArg raw
+      pure (match Param.parseEnum ns r with | some v => "ok " ++ toString v | none => "err")
   | ["parsebytes", raw] => (hexArg raw).map fun r => optHex (Param.parseBytes r)
   | ["printint", v] => v.toInt?.map fun i => toHex (Param.printInt i)
   | ["decodereq", body, query, path] => do
